@@ -1077,3 +1077,31 @@ package godi
 //@        && callarg("collection.registerDescriptor", c, 0) == r && callarg("collection.registerDescriptor", c, 1, "*Descriptor") != nil && callarg("collection.registerDescriptor", c, 1, "*Descriptor").Lifetime == lifetime
 //@     invariant phase: ncalls("newDescriptorWithAnalyzer") == 1 && callret("newDescriptorWithAnalyzer", 0, 1) == nil && ncalls("Descriptor.Validate") == 1 && callret("Descriptor.Validate", 0, 0) == nil
 //@        && ncalls("addOptions.Validate") == 1 && callret("addOptions.Validate", 0, 0) == nil && ncalls("reflection.Analyzer.Analyze") == 1 && callret("reflection.Analyzer.Analyze", 0, 1) == nil && descriptor != nil && descriptor.Lifetime == lifetime
+//
+// ---------------------------------------------------------------------------------------------
+// The public registration and build entry points are thin: exactly one call of the worker, with the lifetime the name says.
+//@ func collection.AddSingleton
+//@   requires tracked_nonnil: forall i int :: 0 <= i && i < len(sc.allDescriptors) ==> sc.allDescriptors[i] != nil
+//@   requires maps: regmaps(sc) && sc.analyzer != nil
+//@   ensures[C01,C17] registers_as_singleton: ncalls("collection.addService") == 1 && callarg("collection.addService", 0, 0) == sc && callarg("collection.addService", 0, 1) == service
+//@        && callarg("collection.addService", 0, 2) == Singleton && callarg("collection.addService", 0, 3) == opts && result == callret("collection.addService", 0, 0)
+//@ func collection.AddScoped
+//@   requires tracked_nonnil: forall i int :: 0 <= i && i < len(sc.allDescriptors) ==> sc.allDescriptors[i] != nil
+//@   requires maps: regmaps(sc) && sc.analyzer != nil
+//@   ensures[C02,C17] registers_as_scoped: ncalls("collection.addService") == 1 && callarg("collection.addService", 0, 0) == sc && callarg("collection.addService", 0, 1) == service
+//@        && callarg("collection.addService", 0, 2) == Scoped && callarg("collection.addService", 0, 3) == opts && result == callret("collection.addService", 0, 0)
+//@ func collection.AddTransient
+//@   requires tracked_nonnil: forall i int :: 0 <= i && i < len(sc.allDescriptors) ==> sc.allDescriptors[i] != nil
+//@   requires maps: regmaps(sc) && sc.analyzer != nil
+//@   ensures[C03,C17] registers_as_transient: ncalls("collection.addService") == 1 && callarg("collection.addService", 0, 0) == sc && callarg("collection.addService", 0, 1) == service
+//@        && callarg("collection.addService", 0, 2) == Transient && callarg("collection.addService", 0, 3) == opts && result == callret("collection.addService", 0, 0)
+//@ func collection.Build
+//@   requires maps: regmaps(sc) && r1(sc) && r2(sc) && sc.analyzer != nil
+//@   requires deps_nonnil: forall i int, j int :: 0 <= i && i < len(sc.allDescriptors) && sc.allDescriptors[i] != nil && 0 <= j && j < len(sc.allDescriptors[i].Dependencies) ==> sc.allDescriptors[i].Dependencies[j] != nil
+//@   ensures[C08,C05,C07] builds_once: ncalls("collection.BuildWithContext") == 1 && callarg("collection.BuildWithContext", 0, 0) == sc && callarg("collection.BuildWithContext", 0, 1) == ctxbackground()
+//@        && result0 == callret("collection.BuildWithContext", 0, 0) && result1 == callret("collection.BuildWithContext", 0, 1)
+//@ func collection.BuildWithContext
+//@   requires maps: regmaps(sc) && r1(sc) && r2(sc) && sc.analyzer != nil
+//@   requires deps_nonnil: forall i int, j int :: 0 <= i && i < len(sc.allDescriptors) && sc.allDescriptors[i] != nil && 0 <= j && j < len(sc.allDescriptors[i].Dependencies) ==> sc.allDescriptors[i].Dependencies[j] != nil
+//@   ensures[C08,C05,C07] builds_once: ncalls("collection.doBuild") == 1 && callarg("collection.doBuild", 0, 0) == sc && callarg("collection.doBuild", 0, 1) == ite(ctx == nil, ctxbackground(), ctx)
+//@        && result0 == callret("collection.doBuild", 0, 0) && result1 == callret("collection.doBuild", 0, 1)
